@@ -129,6 +129,19 @@ PLAN = {
         "scen_thorough": ["h1-origins-port", "h1-origins-scheme", "h1-origins-host", "h2-alpn-max1-AAB", "stun-sharedctx-max2-AB", "tun-max1-AAB", "socks-max1-AAB", "fwd-max1-AAB"],
         "strategies": ["base", "dfs", "sequential"],
     },
+    "C11": {
+        # what each hop sees, for every TRANSMISSION of a request (the pool re-sends the caller's Request
+        # object after ConnectionNotAvailable - double assignment of an idle connection, a refusal at the
+        # connect lock): absolute-form to a forwarding proxy, origin-form through a tunnel
+        "mc_thorough": ["CfgsMbase"],
+        "inv": ["TypeOK", "AtMostOnce"],
+        "prop": [],
+        "mc_quick": [("CfgsQ2", {"faults": 0, "maxclock": 0})],
+        "vacuity": [],
+        "scen_quick": ["fwd-max1-AAB", "fwd-max1-AAA", "tun-max1-AAB"],
+        "scen_thorough": ["fwd-max1-AAB", "fwd-max1-AAA", "tun-max1-AAB", "socks-max1-AAB", "socks-guess-max1-AA"],
+        "strategies": ["base", "dfs", "late"],
+    },
     "C16": {
         "mc_thorough": ["CfgsMto"],
         "inv": ["TypeOK", "Forgotten"],
